@@ -188,6 +188,8 @@ def encode_doc(data):
 # --------------------------------------------------------------------------- xmllint
 
 def find_xmllint():
+    if os.environ.get('VERIF_NO_XMLLINT'):      # to exercise the configuration without xmllint
+        return None
     for c in (shutil.which('xmllint'), '/root/miniconda/bin/xmllint', '/usr/bin/xmllint'):
         if c and os.path.exists(c):
             return c
